@@ -560,6 +560,15 @@ int w2_getifaddrs(struct ifaddrs **out) {
             else if (fam == 1) { struct sockaddr_in *s = (struct sockaddr_in *)calloc(1, sizeof(*s)); s->sin_family = AF_INET; uint8_t b[4] = {(uint8_t)(n.cfg.ipv4 >> 24), (uint8_t)(n.cfg.ipv4 >> 16), (uint8_t)(n.cfg.ipv4 >> 8), (uint8_t)n.cfg.ipv4}; memcpy(&s->sin_addr, b, 4); a->ifa_addr = (struct sockaddr *)s; }
             else { struct sockaddr_in6 *s = (struct sockaddr_in6 *)calloc(1, sizeof(*s)); s->sin6_family = AF_INET6; memcpy(&s->sin6_addr, n.cfg.ipv6, 16); a->ifa_addr = (struct sockaddr *)s; }
             *tail = a; tail = &a->ifa_next;
+            if (fam == 1 && (mix64(g_plan.seed, 0x5ec0 + oi) % 4) == 0 && g_plan.prop == "C04") { // a secondary address: the kernel lists it after the primary one
+                struct ifaddrs *b = (struct ifaddrs *)calloc(1, sizeof(*b));
+                b->ifa_name = strdup(n.cfg.name.c_str());
+                b->ifa_flags = IFF_UP | IFF_RUNNING;
+                struct sockaddr_in *s2 = (struct sockaddr_in *)calloc(1, sizeof(*s2)); s2->sin_family = AF_INET;
+                uint32_t sec = (uint32_t)mix64(g_plan.seed, 0x5ec1 + oi); memcpy(&s2->sin_addr, &sec, 4); b->ifa_addr = (struct sockaddr *)s2;
+                *tail = b; tail = &b->ifa_next;
+                g_probe["secondary_ipv4_listed"]++;
+            }
         }
     }
     // links without an address of any kind: entries whose ifa_addr is NULL, inserted at seeded positions (also in front)
